@@ -763,7 +763,7 @@ Proof.
 Qed.
 
 (* the code before D-17d: an empty non-nil return route crashes the forwarding loop *)
-Lemma forward_prefix_crash : exists cf n e, forward_gen false cf n e = FCrash.
+Lemma forward_prefix_crash : exists cf n e, forward_gen true false cf n e = FCrash.
 Proof.
   exists (mkCfg 0 16 (fun _ d => Some d)), 1, (mkEnv true 1 2 [] (Some []) 7). vm_compute. reflexivity.
 Qed.
